@@ -9,8 +9,9 @@ open Influx.Spec.C07
 
 /-- encode with both encoders, decode each output with the (shared) decoder model -/
 def rtOf {α : Type} (encS encB : Option Bytes) (dec : Bytes → Option α) : RT α :=
-  { encS := encS, encB := encB,
-    ss := encS.bind dec, sb := encS.bind dec, bs := encB.bind dec, bb := encB.bind dec }
+  let ds := encS.bind dec
+  let db := encB.bind dec
+  { encS := encS, encB := encB, ss := ds, sb := ds, bs := db, bb := db }
 
 /-- a block decoder is only run when a block was produced -/
 def decBlock (c : Compressor) (v : Vals) (b : Bytes) : Option (List Nat × Vals) :=
@@ -29,6 +30,7 @@ def run (c : Compressor) : Op → Obs
   | .block ts v =>
     let s := blockEncodeS c ts v
     let b := blockEncodeB c ts v
-    .block (rtOf s b (decBlock c v)) true (s.bind (decBlock c v)) (b.bind (decBlock c v))
+    let r := rtOf s b (decBlock c v)
+    .block r true r.ss r.bs
 
 end Influx.Codec
